@@ -159,6 +159,7 @@ def const_item_of(facts, body, operand, depth=0):
 
 
 CAST_KINDS = False        # optional: cast expressions carry the MIR cast kind as a 4th element (IntToFloat, FloatToInt, ...)
+NORM_UNSIGNED = False    # optional (site fingerprints): on unsigned operands x >> k reads as x / 2^k and x & (2^k - 1) as x % 2^k
 CALL_TAGGER = None       # optional hook: (callee name, block, terminator) -> name used in expressions (to keep call sites apart)
 
 
@@ -179,10 +180,33 @@ def expr_of(facts, body, operand, depth=0, memo=None):
             return ('item', operand['uneval'])      # a named constant of a struct type (bitflags): keep the name
         v = const_value(operand)
         if v is not None: return ('c', v)
-        if 'uneval' in operand: return ('item', const_item_of(facts, body, operand) or operand['uneval'])
+        if 'uneval' in operand:
+            it = const_item_of(facts, body, operand)
+            if it is None and 'promoted' in operand:
+                pv = _promoted_value(facts, body, operand)
+                if pv is not None: return ('k', pv)
+            return ('item', it or operand['uneval'])
         if 'static' in operand: return ('static', operand['static'])
         return ('k', operand.get('txt'))
     return expr_of_place(facts, body, operand['p'], depth, memo)
+
+
+def _promoted_value(facts, body, operand):
+    """printable value of a promoted constant that is not a named item (e.g. the `Some(1)` of `x == Some(1)`), folded from its MIR"""
+    pn = '%s::%s::promoted[%d]' % (body['crate'], operand['uneval'], operand['promoted'])
+    if pn not in facts.bodies: return None
+    try:
+        from . import tables
+        v = tables.plain(tables.fold_const(facts, pn))
+    except Exception:
+        return None
+    def r(x):
+        if isinstance(x, tuple) and len(x) == 3 and isinstance(x[0], str) and isinstance(x[2], list):
+            nm = {('Option', 0): 'None', ('Option', 1): 'Some'}.get((x[0], x[1]), '%s#%s' % (x[0], x[1]))
+            return nm + ('(%s)' % ', '.join(r(y) for y in x[2]) if x[2] else '')
+        if isinstance(x, (list, tuple)): return '[%s]' % ', '.join(r(y) for y in x)
+        return str(x)
+    return r(v)
 
 
 def _proj_key(proj, resolve=None):
@@ -255,7 +279,17 @@ def expr_of_place(facts, body, p, depth=0, memo=None):
 def _expr_rv(facts, body, rv, depth, memo):
     k = rv['r']
     if k == 'use': return expr_of(facts, body, rv['a'], depth, memo)
-    if k == 'bin': return ('op', rv['op'], expr_of(facts, body, rv['a'], depth, memo), expr_of(facts, body, rv['b'], depth, memo))
+    if k == 'bin':
+        ea, eb = expr_of(facts, body, rv['a'], depth, memo), expr_of(facts, body, rv['b'], depth, memo)
+        if NORM_UNSIGNED and rv['op'] in ('Shr', 'BitAnd'):
+            a = rv['a']
+            ty = a['p'].get('ty') if a.get('o') in ('copy', 'move') else (a.get('ty', {}).get('s') if isinstance(a.get('ty'), dict) else None)
+            if isinstance(ty, str) and ty in ('u8', 'u16', 'u32', 'u64', 'u128', 'usize'):
+                if rv['op'] == 'Shr' and eb[0] == 'c' and isinstance(eb[1], int) and 0 <= eb[1] < 64: return ('op', 'Div', ea, ('c', 1 << eb[1]))
+                if rv['op'] == 'BitAnd':
+                    for x, m in ((ea, eb), (eb, ea)):
+                        if m[0] == 'c' and isinstance(m[1], int) and m[1] > 0 and (m[1] & (m[1] + 1)) == 0: return ('op', 'Rem', x, ('c', m[1] + 1))
+        return ('op', rv['op'], ea, eb)
     if k == 'un':
         if rv['op'] == 'PtrMetadata': return ('len', expr_of(facts, body, rv['a'], depth, memo))
         return ('un', rv['op'], expr_of(facts, body, rv['a'], depth, memo))
